@@ -146,9 +146,9 @@ def decide(spec, group, tier, seed, replay=None):
             if (broken or corr_breaks) and not orc_fails and not replay:
                 log('%s: obligation/correspondence broken; searching for a failing input' % pid)
                 extra = []
-                for s2 in range(1, 5):
-                    extra += [c for c in spec['gen'](core.Gen(seed * 1000 + s2), 'thorough') if c.kind == 'orc']
-                    if len(extra) > 60000: break
+                for s2 in range(1, 4):
+                    extra += [c for c in spec['gen'](core.Gen(seed * 1000 + s2), 'quick' if tier == 'quick' else 'thorough') if c.kind == 'orc']
+                    if len(extra) > 30000: break
                 # oracle versions of the disagreeing lines first, if the property offers a targeted search
                 if 'targeted' in spec:
                     extra = spec['targeted']([cases[i].line for i in corr_breaks[:50]], core.Gen(seed + 7)) + extra
